@@ -153,3 +153,106 @@ def local_atoms_hook(mod, func, kinds=None):
             return X.atom(f'local:{nm}', (kinds or {}).get(nm, 'pos'))
         return None
     return hook
+
+
+# ---------------------------------------------------------------------------------------------- C integer widths of loop indices
+_INT_WIDTH = {'char': 1, 'unsigned char': 1, 'signed char': 1, 'short': 2, 'unsigned short': 2, 'int': 4, 'unsigned int': 4, 'bint': 4, 'long': 8, 'unsigned long': 8, 'long long': 8,
+              'unsigned long long': 8, 'size_t': 8, 'ssize_t': 8, 'Py_ssize_t': 8}
+
+
+def _c_types(mod, func):
+    types = {}
+    for (nm, ln), info in mod.facts.funcs.items():
+        if nm == func.name and ln == func.lineno:
+            types.update(info['params'])
+    end = getattr(func, 'end_lineno', 10 ** 9)
+    for (nm, ln), typ in mod.facts.vars.items():
+        if func.lineno <= ln <= end:
+            types.setdefault(nm, typ)
+    return types
+
+
+def _guarded_limit(mod, fn, name, loop):
+    """largest value `name` can have when `loop` runs, if the function raises for larger values beforehand: `if name > LIMIT: raise` / `if name >= LIMIT: raise` with LIMIT an
+    integer constant (literal, or a local / module-level name assigned one)"""
+    consts = {}
+    for st in list(mod.tree.body) + [x for x in ast.walk(fn) if isinstance(x, ast.Assign)]:
+        if isinstance(st, ast.Assign) and len(st.targets) == 1 and isinstance(st.targets[0], ast.Name) and isinstance(st.value, ast.Constant) and isinstance(st.value.value, int):
+            consts.setdefault(st.targets[0].id, st.value.value)
+    best = None
+    for st in ast.walk(fn):
+        if isinstance(st, ast.If) and getattr(st, 'lineno', 0) < getattr(loop, 'lineno', 0) and any(isinstance(b, ast.Raise) for b in st.body) and isinstance(st.test, ast.Compare) \
+                and len(st.test.ops) == 1 and isinstance(st.test.left, ast.Name) and st.test.left.id == name and isinstance(st.test.ops[0], (ast.Gt, ast.GtE)):
+            r = st.test.comparators[0]
+            v = r.value if isinstance(r, ast.Constant) and isinstance(r.value, int) else (consts.get(r.id) if isinstance(r, ast.Name) else None)
+            if v is not None:
+                v = v if isinstance(st.test.ops[0], ast.Gt) else v - 1
+                best = v if best is None else min(best, v)
+    return best
+
+
+def index_width_lint(chk, repo, rule, paths):
+    """In the compiled sources a `for i in range(n)` whose index is declared with a narrower C integer type than its bound wraps around (or never terminates) as soon as the bound
+    exceeds the index type's range: every loop index must be at least as wide as every integer variable its bound is computed from."""
+    import glob, os
+    n_loops = 0
+    for pat in paths:
+        for path in sorted(glob.glob(os.path.join(repo.root, pat), recursive=True)):
+            rel = os.path.relpath(path, repo.root)
+            mod = repo.by_path(rel)
+            if getattr(mod, 'facts', None) is None:
+                continue
+            for fn in [x for x in ast.walk(mod.tree) if isinstance(x, ast.FunctionDef)]:
+                types = _c_types(mod, fn)
+                loops = []
+                for lp in [x for x in ast.walk(fn) if isinstance(x, ast.For)]:
+                    if isinstance(lp.iter, ast.Call) and isinstance(lp.iter.func, ast.Name) and lp.iter.func.id in ('range', 'prange') and isinstance(lp.target, ast.Name):
+                        loops.append((lp, lp.target.id, list(lp.iter.args), ast.unparse(lp.iter)[:50]))
+                # counting while-loops: `while BOUND > i:` / `while i < BOUND:` with i advanced in the body
+                for lp in [x for x in ast.walk(fn) if isinstance(x, ast.While)]:
+                    t = lp.test
+                    if isinstance(t, ast.Compare) and len(t.ops) == 1 and isinstance(t.ops[0], (ast.Lt, ast.LtE, ast.Gt, ast.GtE)):
+                        stepped = {x.target.id for x in ast.walk(lp) if isinstance(x, ast.AugAssign) and isinstance(x.target, ast.Name)}
+                        sides = [t.left, t.comparators[0]]
+                        for idx_side, bound_side in ((sides[0], sides[1]), (sides[1], sides[0])):
+                            if isinstance(idx_side, ast.Name) and idx_side.id in stepped:
+                                loops.append((lp, idx_side.id, [bound_side], ast.unparse(t)[:50]))
+                                break
+                # secondary counters: integer variables advanced in the loop's own body (not in a nested loop) take as many values as the index does
+                def own_steps(lp):
+                    out = set()
+                    def walk(body):
+                        for st in body:
+                            if isinstance(st, (ast.For, ast.While)): continue
+                            if isinstance(st, ast.AugAssign) and isinstance(st.target, ast.Name) and isinstance(st.op, ast.Add): out.add(st.target.id)
+                            for fld in ('body', 'orelse'):
+                                if isinstance(st, (ast.If, ast.With, ast.Try)) and getattr(st, fld, None): walk(getattr(st, fld))
+                    walk(lp.body)
+                    return out
+                extra = []
+                for lp, idx_name, bound_exprs, shown in loops:
+                    for nm2 in sorted(own_steps(lp) - {idx_name}):
+                        extra.append((lp, nm2, bound_exprs, shown + f' (counter `{nm2}` advanced with it)'))
+                for lp, idx_name, bound_exprs, shown in loops + extra:
+                    it_ = ' '.join(types.get(idx_name, '').replace('const ', '').split())
+                    wi = _INT_WIDTH.get(it_)
+                    if wi is None:
+                        continue
+                    n_loops += 1
+                    worst = None
+                    for a_ in bound_exprs:
+                        for x in ast.walk(a_):
+                            if isinstance(x, ast.Name):
+                                tb = ' '.join(types.get(x.id, '').replace('const ', '').split())
+                                wb = _INT_WIDTH.get(tb)
+                                if wb is not None and wb > wi and (worst is None or wb > worst[1]):
+                                    worst = (x.id, wb, tb)
+                    if worst is not None:
+                        lim = _guarded_limit(mod, fn, worst[0], lp)
+                        if lim is not None and lim <= 2 ** (8 * wi) - 1:
+                            worst = None          # the bound is validated against a limit the index type can hold before the loop runs
+                    chk.ob(rule, f'{rel}::{fn.name}: loop index `{idx_name}` ({it_}) is at least as wide as its bound `{shown}` (or the bound is validated against a limit it can hold)', worst is None,
+                           '' if worst is None else f'`{worst[0]}` is a {worst[2]} ({worst[1]} bytes), the index a {it_} ({wi} byte{"s" if wi > 1 else ""}): the index wraps before the bound is reached once `{worst[0]}` exceeds {2 ** (8 * wi) - 1}',
+                           mod.where(lp), key=f'{rule}|{rel}::{fn.name}|{idx_name}|{shown[:40]}', method='declared C types of loop index and bound')
+    chk.note_analysed('typed range-loops', n_loops)
+    return n_loops
